@@ -1185,40 +1185,78 @@ def run_case(ctx, case, want):
 
 
 # =========================================================================== shrinking
-def shrink_ops(case, still_fails, max_tries=400):
-    """remove ops (single ops, then suffixes) while `still_fails(case)`"""
+CREATES = ("fresh", "copy", "getSub")
+
+
+def drop_op(ops, i):
+    """history without op i; when op i creates a handle, the ops that use that handle go too and
+    later handle numbers move down"""
+    if ops[i]["o"] not in CREATES:
+        return ops[:i] + ops[i + 1:]
+    hid = 1 + sum(1 for o in ops[:i] if o["o"] in CREATES)
+    out = list(ops[:i])
+    for o in ops[i + 1:]:
+        if o.get("h") == hid or o.get("hs") == hid:
+            continue
+        o2 = dict(o)
+        for k in ("h", "hs"):
+            if k in o2 and o2[k] > hid:
+                o2[k] -= 1
+        out.append(o2)
+    return out
+
+
+def merge_copy(ops, i):
+    """history without the `copy` at i, the copy's later uses redirected to the tree it was copied from"""
+    hid = 1 + sum(1 for o in ops[:i] if o["o"] in CREATES)
+    src = ops[i]["h"]
+    out = list(ops[:i])
+    for o in ops[i + 1:]:
+        o2 = dict(o)
+        for k in ("h", "hs"):
+            if k in o2:
+                o2[k] = src if o2[k] == hid else o2[k] - 1 if o2[k] > hid else o2[k]
+        out.append(o2)
+    return out
+
+
+def shrink_ops(case, still_fails, max_tries=600):
+    """remove ops (the tail, then single ops with their dependants, to a fixpoint) while `still_fails(case)`"""
     ops = list(case["ops"])
     strict = case.get("stream", "grammar") == "grammar"
+    tries = [0]
 
     def ok(cand):
-        try:
-            abstract_run(cand, strict=True) if strict else None
-        except Illegal:
-            return False
-        c = dict(case)
-        c["ops"] = cand
-        return still_fails(c)
+        tries[0] += 1
+        if strict:
+            try:
+                abstract_run(cand, strict=True)
+            except Illegal:
+                return False
+        return still_fails(dict(case, ops=cand))
 
-    tries = 0
-    # cut the tail first
-    lo = len(ops)
-    while lo > 1 and tries < max_tries:
-        tries += 1
-        if ok(ops[: lo - 1]):
-            lo -= 1
-            ops = ops[:lo]
+    # the failure is reported at one op: everything after it is irrelevant
+    lo, hi = 1, len(ops)
+    while lo < hi and tries[0] < max_tries:
+        mid = (lo + hi) // 2
+        if ok(ops[:mid]):
+            hi = mid
         else:
-            break
-    i = len(ops) - 2
-    while i >= 0 and tries < max_tries:
-        tries += 1
-        cand = ops[:i] + ops[i + 1:]
-        if ok(cand):
-            ops = cand
-        i -= 1
-    c = dict(case)
-    c["ops"] = ops
-    return c
+            lo = mid + 1
+    ops = ops[:hi]
+    progress = True
+    while progress and tries[0] < max_tries:
+        progress = False
+        i = len(ops) - 1
+        while i >= 0 and tries[0] < max_tries:
+            cands = [drop_op(ops, i)] + ([merge_copy(ops, i)] if ops[i]["o"] == "copy" else [])
+            for cand in cands:
+                if len(cand) < len(ops) and ok(cand):
+                    ops = cand
+                    progress = True
+                    break
+            i = min(i - 1, len(ops) - 1)
+    return dict(case, ops=ops)
 
 
 # =========================================================================== cases shared by C06 / C07 / C15
